@@ -130,6 +130,8 @@ class C14(Prop):
         t.deliver(engine.build_frame({'ty': 'SETUP', 'sid': 0, 'complete': True}).serialize())
         await loop.settle()
         for n, us in case['leases']:
+            if not hasattr(pub, 's'):
+                break         # the endpoint never subscribed to its lease publisher: nothing can be announced
             pub.s.on_next(DefinedLease(maximum_request_count=n, maximum_lease_time=timedelta(microseconds=us)))
             await loop.settle()
         got = [[e[2].number_of_requests, e[2].time_to_live] for e in t.sent if isinstance(e[2], F.LeaseFrame)]
